@@ -108,7 +108,7 @@ INFO['C10'] = dict(
          '8th-order central differences of the library energy along seeded directions; stencils that straddle the yield switch are '
          'skipped and counted. FE-level output (energy densities x vols == strain energy; virtual work identity) is asserted inside fe_app_sim',
     sim_time_unit='sum of dt', components=_MAT, probe_names=['fd:yielding_point', 'fd:elastic_point'],
-    assumptions=COMMON_ASSUME + ['tolerances 1e-8 (stress) / 1e-6 (tangent) relative to modulus x strain / modulus, plus stencil rounding'])
+    assumptions=COMMON_ASSUME + ['tolerances 1e-6 (stress) / 1e-4 (tangent) relative to modulus x strain / modulus, plus stencil rounding; largest admissible step per point, stencil within a tenth of the distance to the yield switch'])
 INFO['C11'] = dict(
     rule='same engine with the 1- and 3-branch viscoelastic models: steps and holds with dt/tau swept over 12 decades by dt_jump ops; '
          'dissipation >= 0, det Fv = 1, stored energy monotone in holds (recomputed from the state with numpy eigh), two-limit check at the start of each run',
